@@ -836,9 +836,12 @@ func (s *State) applyFunction(name string, fn object.Object, args []object.Objec
 	// other variables, and so may a top level function of that text whose free names are globals.
 	// A name that became a global since results were remembered: a call that assigned it as its own local
 	// variable would now change the global instead, what it did then says nothing about what it does now.
-	if n := s.rootEnv.NumCreated(); n != s.cacheEpoch {
-		s.ResetCache()
-		s.cacheEpoch = n
+	// (the state a macro body runs in has no toplevel environment, and serves nothing from its cache)
+	if s.rootEnv != nil {
+		if n := s.rootEnv.NumCreated(); n != s.cacheEpoch {
+			s.ResetCache()
+			s.cacheEpoch = n
+		}
 	}
 	closure := function.Env != nil && function.Env != s.rootEnv
 	if v, output, ok := s.cache.Get(memoKey, args); ok && !closure {
